@@ -105,8 +105,8 @@ Theorem C17_filter_average : forall tc fmt g src dst dst',
        forall w u, 0 <= w < gax g -> 0 <= u < gay g -> fb_get src (sx + w) (sy + u) <> None).
 Proof. exact update_rect_spec. Qed.
 
-(* C17_converges (for the proposed repair notes/fix_C17_2.diff: the block of destination pixel X starts
-   at ScaleX(X) whatever rectangle is refreshed): if the scaled screen is the box filter of the
+(* C17_converges (the tree since /repo commit d58ea84: the block of destination pixel X starts at
+   ScaleX(X) whatever rectangle is refreshed): if the scaled screen is the box filter of the
    framebuffer, the framebuffer is modified inside a rectangle, and the refresh uses a geometry that is
    inside the scaled screen and covers the exact image of that rectangle (C17_correction_inside /
    C17_correction_covers), then the scaled screen is again the box filter of the framebuffer -
@@ -120,7 +120,7 @@ Theorem C17_converges : forall fmt g src src' dst dst' W H w' h' x y w h,
   Conv fmt src' W H w' h' dst'.
 Proof. exact converges_step. Qed.
 
-(* F17b - the block grid of the code as it is (block of offset i at ScaleX(x1) + i*areaX): the same
+(* record of F17b - the block grid before d58ea84 (block of offset i at ScaleX(x1) + i*areaX): the same
    framebuffer gives two different scaled images (3x11 screen, factor 3, row 9 modified) *)
 Theorem C17_old_grid_history_dependent :
   exists fmt src src' gfull gpart A B0 B,
